@@ -132,6 +132,21 @@ pub fn scenarios(tier: &str) -> Vec<Scenario> {
     v.push(Scenario::new("seq2_full_alphabet", &["delegate_ok", "undelegate_ok", "undelegate_err", "end"], || {
         run_seq(&alphabet_full(), 2, Cfg::default())
     }));
+    v.push(Scenario::new("seq2_full_alphabet_boundary_staking_parameters", &["delegate_ok", "undelegate_ok", "delegate_err", "end"], || {
+        // staking parameters at the ends of their ranges (fixed at setup): no interest, no unbonding
+        // period, no / full commission (found missing by seeds C14d, C16d)
+        let mut cfg = Cfg::default();
+        match choose(4) {
+            0 => cfg.apr = 0,
+            1 => cfg.unbonding = 0,
+            2 => {
+                cfg.apr = 0;
+                cfg.unbonding = 0;
+            }
+            _ => cfg.comm = [0, E18],
+        }
+        run_seq(&alphabet_full(), 2, cfg)
+    }));
     v.push(Scenario::new("seq3_small_alphabet", &["delegate_ok", "undelegate_ok", "unbonding_paid", "unbonding_still_pending", "slash_ok", "slash_err", "end"], || {
         run_seq(&alphabet_small(), 3, Cfg::default())
     }));
